@@ -249,6 +249,17 @@ func (c *compiler) identity(y *Identity) error {
 	return nil
 }
 
+func (c *compiler) inheritFromTypedef(parent Leafable, tdef *Typedef) {
+	if !parent.HasDefault() {
+		if tdef.HasDefault() {
+			parent.setDefaultValue(tdef.DefaultValue())
+		}
+	}
+	if parent.Units() == "" {
+		parent.setUnits(tdef.Units())
+	}
+}
+
 func (c *compiler) compileType(y *Type, parent Leafable, isUnion bool) error {
 	if y == nil {
 		return errors.New("no type set on " + SchemaPath(parent))
@@ -256,6 +267,11 @@ func (c *compiler) compileType(y *Type, parent Leafable, isUnion bool) error {
 	if int(y.format) != 0 {
 		if _, isList := parent.(*LeafList); isList && !y.format.IsList() {
 			y.format = y.format.List()
+		}
+		// every copy of a grouping's leaf shares this type, only the first copy
+		// gets here with an uncompiled type but all of them inherit from the typedef
+		if y.typedef != nil && !isUnion {
+			c.inheritFromTypedef(parent, y.typedef)
 		}
 		return nil
 	}
@@ -270,16 +286,10 @@ func (c *compiler) compileType(y *Type, parent Leafable, isUnion bool) error {
 		// Don't use resolve here because if a typedef is a leafref, you want
 		// the unresolved here and resolve it below
 		tdef.dtype.mixin(y)
+		y.typedef = tdef
 
 		if !isUnion {
-			if !parent.HasDefault() {
-				if tdef.HasDefault() {
-					parent.setDefaultValue(tdef.DefaultValue())
-				}
-			}
-			if parent.Units() == "" {
-				parent.setUnits(tdef.Units())
-			}
+			c.inheritFromTypedef(parent, tdef)
 		}
 	}
 
